@@ -400,6 +400,7 @@ LOOPS = {
     "btree::KVIterator as fallible_iterator::FallibleIterator>::next": ("callee-bound:Handle::try_ascend", "ascent stops at the root height (try_ascend compares node height with root_h)"),
     "hashbrown::BucketIterator as fallible_iterator::FallibleIterator>::next": ("cmp-exit", "control-byte cursor advances by the group width every iteration and is compared with the end of the table"),
     "eval::ExpressionEvaluator::evaluate_with_resolver": ("dependency", "one iteration per requirement of gimli's expression evaluation (bounded by the expression; gimli is out of scope)"),
+    "unwind::evaluate_cfi_expression": ("dependency", "one iteration per requirement (register / memory) of gimli's evaluation of one call frame expression; the expression comes from the object file's unwind table, not from debuggee memory or the client"),
     "unwind::DwarfUnwinder::unwind": ("cmp-exit", "depth bound and visited set (checked in detail under C05)"),
     "rendezvous::Rendezvous::link_maps": ("cmp-exit", "element count compared with a constant"),
     "rendezvous::Rendezvous::new": ("monotone-address", "scans the .dynamic array: the address strictly increases and every read can fail; ends at DT_NULL"),
